@@ -18,9 +18,10 @@ class SuccessionDiagramState(TypedDict):
     A `TypedDict` class that stores the state of a succession diagram (see :class:`biobalm.SuccessionDiagram`).
     """
 
-    network_rules: str
+    network: ba.BooleanNetwork
     """
-    The network rules as an `.aeon` formatted string.
+    The Boolean network (older versions stored the network rules as an `.aeon`
+    formatted string in `network_rules`, which is still accepted when loading).
     """
 
     petri_net: nx.DiGraph
